@@ -1445,6 +1445,12 @@ void nthroot_mod_list(std::vector<RCP<const Integer>> &roots,
         rem.push_back(rem1);
     }
     _crt_cartesian(roots, rem, moduli);
+    // representatives in [0, m)
+    for (auto &r : roots) {
+        integer_class t;
+        mp_fdiv_r(t, r->as_integer_class(), m->as_integer_class());
+        r = integer(std::move(t));
+    }
     std::sort(roots.begin(), roots.end(), SymEngine::RCPIntegerKeyLess());
 }
 
